@@ -152,6 +152,7 @@ theorem listening_monotone (n : Net) (s : Step) (h : n.listening = false) :
   cases s with
   | connect k src => rw [step_connect_refused n k src h]; exact h
   | request k => simp only [ServerNet.step]; cases lookup n k <;> exact h
+  | pipeline k cnt => simp only [ServerNet.step]; cases lookup n k <;> exact h
   | garbage k =>
     simp only [ServerNet.step]
     cases lookup n k with
@@ -199,6 +200,7 @@ theorem tracker_inv_step (n : Net) (s : Step) (h : C15.Inv n.tracker) :
       | true => rw [step_connect_accept n k src hl hm]; exact C15.add_inv _ h
       | false => rw [step_connect_reject n k src hl hm]; exact h
   | request k => simp only [ServerNet.step]; cases lookup n k <;> exact h
+  | pipeline k cnt => simp only [ServerNet.step]; cases lookup n k <;> exact h
   | garbage k =>
     simp only [ServerNet.step]
     cases lookup n k with
@@ -226,6 +228,7 @@ theorem tracker_max_step (n : Net) (s : Step) :
       | true => rw [step_connect_accept n k src hl hm]; rfl
       | false => rw [step_connect_reject n k src hl hm]; rfl
   | request k => simp only [ServerNet.step]; cases lookup n k <;> rfl
+  | pipeline k cnt => simp only [ServerNet.step]; cases lookup n k <;> rfl
   | garbage k =>
     simp only [ServerNet.step]
     cases lookup n k with
@@ -393,6 +396,7 @@ theorem wf_step (n : Net) (s : Step) (h : WF n) : WF (ServerNet.step n s).1 := b
       | true => rw [step_connect_accept n k src hl hm]; exact wf_accept h k
       | false => rw [step_connect_reject n k src hl hm]; exact wf_setConn_none h k
   | request k => simp only [ServerNet.step]; cases lookup n k <;> exact h
+  | pipeline k cnt => simp only [ServerNet.step]; cases lookup n k <;> exact h
   | garbage k =>
     simp only [ServerNet.step]
     cases lookup n k with
@@ -614,6 +618,7 @@ theorem lookup_none_step (n : Net) (s : Step) (a : Nat) (h : lookup n a = none)
       | true => rw [lookup_accept_ne n k src hl hm a hak, h]; rfl
       | false => rw [step_connect_reject n k src hl hm]; exact (lookup_setConn_ne n a k none hak).trans h
   | request k => simp only [ServerNet.step]; cases lookup n k <;> exact h
+  | pipeline k cnt => simp only [ServerNet.step]; cases lookup n k <;> exact h
   | garbage k =>
     by_cases hak : a = k
     · subst hak; simp only [ServerNet.step, h]
@@ -719,6 +724,7 @@ theorem owned_step (n : Net) (s : Step) (h : Owned n)
         have hak : a ≠ k := fun e => by rw [e] at ha; simp [isOpen, ha] at hk
         exact ⟨a, (lookup_setConn_ne n a k none hak).trans ha⟩
   | request k => simp only [ServerNet.step]; cases lookup n k <;> exact h
+  | pipeline k cnt => simp only [ServerNet.step]; cases lookup n k <;> exact h
   | garbage k =>
     simp only [ServerNet.step]
     cases lookup n k with
@@ -776,6 +782,201 @@ theorem evicted_is_oldest_exact (n : Net) (hw : WF n) (ho : Owned n) (k : Nat) (
       have : v ≠ some o := fun e => hba (h3 b a (by rw [hlb, e]) ha)
       simp [this]
 
+/-! ### pipelined requests, bursts of session ends, churn -/
+
+/-- the tail-recursive runner used by the driver is `run` -/
+theorem runAux_eq (steps : List Step) (n : Net) (acc : List Obs) :
+    ServerNet.runAux n steps acc
+      = ((ServerNet.run n steps).1, acc.reverse ++ (ServerNet.run n steps).2) := by
+  induction steps generalizing n acc with
+  | nil => simp [ServerNet.runAux, ServerNet.run]
+  | cons s rest ih =>
+    simp only [ServerNet.runAux, ServerNet.run]
+    rw [ih]
+    simp [List.reverse_append, List.append_assoc]
+
+theorem runTR_eq_run (n : Net) (steps : List Step) : ServerNet.runTR n steps = ServerNet.run n steps := by
+  simp [ServerNet.runTR, runAux_eq]
+
+/-- **pipeline_answer**: `cnt` requests written back to back on an open plain-TCP connection are
+    all answered (one reply per request: `cnt` replies), however late the peer starts to read
+    them and whatever the other connections did before; the step changes nothing in the server -/
+theorem pipeline_answer (n : Net) (k cnt : Nat) (h : isOpen n k = true) (ht : n.tls = false) :
+    ServerNet.step n (.pipeline k cnt) = (n, [.pipe k "ok" cnt]) := by
+  simp only [ServerNet.step]
+  cases hl : lookup n k with
+  | none => simp [isOpen, hl] at h
+  | some v => simp [h, ht]
+
+/-- a pipelined step never changes the state: no other connection can be disturbed by it -/
+theorem pipeline_state (n : Net) (k cnt : Nat) : (ServerNet.step n (.pipeline k cnt)).1 = n := by
+  simp only [ServerNet.step]; cases lookup n k <;> rfl
+
+theorem isolation_pipeline (n : Net) (a b cnt : Nat) :
+    lookup (ServerNet.step n (.pipeline b cnt)).1 a = lookup n a ∧
+    isOpen (ServerNet.step n (.pipeline b cnt)).1 a = isOpen n a := by
+  rw [pipeline_state]; exact ⟨rfl, rfl⟩
+
+theorem tracker_close (n : Net) (k : Nat) :
+    (ServerNet.step n (.close k)).1.tracker = (endSession n k).tracker := rfl
+
+theorem endSession_of_not_open (n : Net) (k : Nat) (h : isOpen n k = false) : endSession n k = n := by
+  unfold endSession
+  split
+  · rename_i id hl; simp [isOpen, hl] at h
+  · rfl
+
+theorem filter_ne_of_lt (l : List Nat) (x : Nat) (h : ∀ i ∈ l, i < x) :
+    (l ++ [x]).filter (· ≠ x) = l := by
+  rw [List.filter_append]
+  have h1 : l.filter (· ≠ x) = l :=
+    List.filter_eq_self.mpr (fun i hi => by have := h i hi; simp; omega)
+  rw [h1]
+  simp
+
+/-- one churn peer (connect, then close at once) below the session limit: nothing is left of it
+    — no table entry, no tracked id — and no other connection is touched -/
+theorem churn_one (n : Net) (hw : WF n) (l : Nat) (src : Addr) (hl : lookup n l = none)
+    (hroom : n.tracker.ids.length < n.tracker.max) :
+    WF (ServerNet.run n [.connect l src, .close l]).1 ∧
+    lookup (ServerNet.run n [.connect l src, .close l]).1 l = none ∧
+    (ServerNet.run n [.connect l src, .close l]).1.tracker.ids = n.tracker.ids ∧
+    (ServerNet.run n [.connect l src, .close l]).1.tracker.max = n.tracker.max ∧
+    ∀ a, a ≠ l → lookup (ServerNet.run n [.connect l src, .close l]).1 a = lookup n a := by
+  have hrun : (ServerNet.run n [.connect l src, .close l]).1
+      = (ServerNet.step (ServerNet.step n (.connect l src)).1 (.close l)).1 := rfl
+  rw [hrun]
+  have hnotopen : isOpen n l = false := by simp [isOpen, hl]
+  refine ⟨wf_step _ _ (wf_step _ _ hw), lookup_remove_self _ l, ?_, ?_, ?_⟩
+  · rw [tracker_close]
+    cases hlis : n.listening with
+    | false =>
+      rw [step_connect_refused n l src hlis, endSession_of_not_open n l hnotopen]
+    | true =>
+      cases hm : n.filter.matches src with
+      | false =>
+        rw [step_connect_reject n l src hlis hm, endSession_of_not_open]
+        · rfl
+        · simp [isOpen, lookup_setConn_self]
+      | true =>
+        have hopen := accepted_is_open n l src hlis hm
+        unfold endSession
+        rw [hopen]
+        show (Tracker.remove (ServerNet.step n (.connect l src)).1.tracker n.tracker.next).ids = _
+        rw [step_connect_accept n l src hlis hm]
+        show ((Tracker.add n.tracker).2.ids.filter (· ≠ n.tracker.next)) = _
+        rw [C15.add_ids, if_neg (by omega)]
+        exact filter_ne_of_lt _ _ hw.inv.2.2.2
+  · rw [tracker_close, endSession_tracker_max, tracker_max_step]
+  · intro a ha
+    rw [(isolation_lookup _ a l ha).2.2.1]
+    cases hlis : n.listening with
+    | false => rw [step_connect_refused n l src hlis]
+    | true =>
+      cases hm : n.filter.matches src with
+      | false => rw [step_connect_reject n l src hlis hm]; exact lookup_setConn_ne n a l none ha
+      | true => exact accept_no_eviction n hw l src hlis hm hroom a ha
+
+theorem churnSteps_succ (l : Nat) (src : Addr) (cnt : Nat) :
+    churnSteps l src (cnt + 1) = .connect l src :: .close l :: churnSteps l src cnt := by
+  simp [churnSteps, List.replicate_succ]
+
+/-- **churn_keeps_sessions**: while the server is below its session limit, any number of peers
+    that connect and leave (there is no bound on `cnt`: session ids are never re-used, they do
+    not wrap) leaves every other connection exactly as it was, and leaves nothing behind in the
+    tracker: the sessions that were live stay live, and the limit is as far away as before -/
+theorem churn_keeps_sessions (cnt : Nat) (n : Net) (hw : WF n) (l : Nat) (src : Addr)
+    (hl : lookup n l = none) (hroom : n.tracker.ids.length < n.tracker.max) :
+    WF (ServerNet.run n (churnSteps l src cnt)).1 ∧
+    lookup (ServerNet.run n (churnSteps l src cnt)).1 l = none ∧
+    (ServerNet.run n (churnSteps l src cnt)).1.tracker.ids = n.tracker.ids ∧
+    (ServerNet.run n (churnSteps l src cnt)).1.tracker.max = n.tracker.max ∧
+    ∀ a, a ≠ l → lookup (ServerNet.run n (churnSteps l src cnt)).1 a = lookup n a := by
+  induction cnt generalizing n with
+  | zero => exact ⟨hw, hl, rfl, rfl, fun _ _ => rfl⟩
+  | succ c ih =>
+    rw [churnSteps_succ]
+    have hrun : (ServerNet.run n (.connect l src :: .close l :: churnSteps l src c)).1
+        = (ServerNet.run (ServerNet.run n [.connect l src, .close l]).1 (churnSteps l src c)).1 := rfl
+    rw [hrun]
+    obtain ⟨h1, h2, h3, h4, h5⟩ := churn_one n hw l src hl hroom
+    obtain ⟨i1, i2, i3, i4, i5⟩ := ih _ h1 h2 (by rw [h3, h4]; exact hroom)
+    exact ⟨i1, i2, i3.trans h3, i4.trans h4, fun a ha => (i5 a ha).trans (h5 a ha)⟩
+
+/-- the same for the open/closed status -/
+theorem churn_keeps_open (cnt : Nat) (n : Net) (hw : WF n) (l : Nat) (src : Addr)
+    (hl : lookup n l = none) (hroom : n.tracker.ids.length < n.tracker.max) (a : Nat) (ha : a ≠ l) :
+    isOpen (ServerNet.run n (churnSteps l src cnt)).1 a = isOpen n a :=
+  isOpen_congr ((churn_keeps_sessions cnt n hw l src hl hroom).2.2.2.2 a ha)
+
+/-- what the end of a session whose table entry is `v` does to the tracker -/
+def closeTracker (t : Tracker.Tracker) : Option (Option Nat) → Tracker.Tracker
+  | some (some id) => Tracker.remove t id
+  | _ => t
+
+theorem endSession_tracker (m : Net) (k : Nat) :
+    (endSession m k).tracker = closeTracker m.tracker (lookup m k) := by
+  unfold endSession
+  split
+  · rename_i id heq; rw [heq]; rfl
+  · rename_i hne
+    cases hl : lookup m k with
+    | none => rfl
+    | some v =>
+      cases v with
+      | none => rfl
+      | some id => exact absurd hl (hne id)
+
+theorem remove_comm (t : Tracker.Tracker) (i j : Nat) :
+    Tracker.remove (Tracker.remove t i) j = Tracker.remove (Tracker.remove t j) i := by
+  simp only [Tracker.remove, List.filter_filter]
+  congr 1
+  apply List.filter_congr
+  intro x _
+  exact Bool.and_comm _ _
+
+/-- **burst_order_irrelevant**: when two sessions end, the order in which the server learns of
+    it is immaterial — same tracker, same table entries (a burst of simultaneous session ends is
+    any of its serialisations) -/
+theorem burst_order_irrelevant (n : Net) (a b : Nat) (hab : a ≠ b) :
+    (ServerNet.run n [.close a, .close b]).1.tracker = (ServerNet.run n [.close b, .close a]).1.tracker ∧
+    ∀ c, lookup (ServerNet.run n [.close a, .close b]).1 c = lookup (ServerNet.run n [.close b, .close a]).1 c := by
+  have hrun (x y : Nat) : (ServerNet.run n [.close x, .close y]).1
+      = (ServerNet.step (ServerNet.step n (.close x)).1 (.close y)).1 := rfl
+  rw [hrun a b, hrun b a]
+  have hba : b ≠ a := fun e => hab e.symm
+  constructor
+  · have e1 : lookup (ServerNet.step n (.close a)).1 b = lookup n b := (isolation_lookup n b a hba).2.2.1
+    have e2 : lookup (ServerNet.step n (.close b)).1 a = lookup n a := (isolation_lookup n a b hab).2.2.1
+    rw [tracker_close, tracker_close, endSession_tracker, endSession_tracker, e1, e2,
+      tracker_close, tracker_close, endSession_tracker, endSession_tracker]
+    cases lookup n a with
+    | none => rfl
+    | some va =>
+      cases va with
+      | none => rfl
+      | some i =>
+        cases lookup n b with
+        | none => rfl
+        | some vb =>
+          cases vb with
+          | none => rfl
+          | some j => exact remove_comm _ _ _
+  · intro c
+    by_cases hca : c = a
+    · subst hca
+      rw [(isolation_lookup _ c b hab).2.2.1]
+      show lookup { (endSession n c) with conns := (endSession n c).conns.filter (·.1 ≠ c) } c = _
+      rw [lookup_remove_self]
+      exact (lookup_remove_self _ c).symm
+    · by_cases hcb : c = b
+      · subst hcb
+        show lookup { (endSession _ c) with conns := (endSession _ c).conns.filter (·.1 ≠ c) } c = _
+        rw [lookup_remove_self, (isolation_lookup _ c a hca).2.2.1]
+        exact (lookup_remove_self _ c).symm
+      · rw [(isolation_lookup _ c b hcb).2.2.1, (isolation_lookup _ c a hca).2.2.1,
+          (isolation_lookup _ c a hca).2.2.1, (isolation_lookup _ c b hcb).2.2.1]
+
 /-! ### non-vacuity -/
 
 /-- max 2, three peers: the oldest is evicted, the others keep being served -/
@@ -819,5 +1020,41 @@ example :
     r.1.tracker.ids = [1, 2, 3] ∧ r.1.conns = [(1, none), (2, some 2), (3, some 3)] ∧
     r.2 = [.conn 1 "open", .conn 2 "open", .conn 2 "open", .conn 3 "open", .prob 1 "closed"] := by
   decide
+
+/-- pipelined requests: all answered on an open plain-TCP connection, none on an evicted one;
+    the other connections are not disturbed -/
+example :
+    (ServerNet.run (init 2 .any false)
+      [.connect 1 (.v4 127 0 0 1), .pipeline 1 20000, .connect 2 (.v4 127 0 0 1), .pipeline 2 3,
+       .connect 3 (.v4 127 0 0 1), .pipeline 1 5, .pipeline 2 7, .pipeline 9 1, .request 3]).2 =
+    [.conn 1 "open", .pipe 1 "ok" 20000, .conn 2 "open", .pipe 2 "ok" 3, .conn 3 "open",
+     .pipe 1 "closed" 0, .pipe 2 "ok" 7, .pipe 9 "noconn" 0, .req 3 "ok.982"] := by decide
+
+/-- churn below the limit (max 2: one live session + the churn peer): the live session stays,
+    the next real peer does not evict it either, the one after that does -/
+example :
+    let a : Addr := .v4 127 0 0 1
+    let r := ServerNet.run (init 2 .any false)
+      ([.connect 1 a] ++ churnSteps 0 a 5 ++ [.probe 1, .connect 2 a, .probe 1, .connect 3 a, .probe 1])
+    r.1.tracker = ⟨2, 8, [6, 7]⟩ ∧
+    r.2.filter (fun o => match o with | .conn 0 _ => false | _ => true) =
+      [.conn 1 "open", .prob 1 "open", .conn 2 "open", .prob 1 "open", .conn 3 "open", .prob 1 "closed"] := by
+  decide
+
+/-- at the limit every churn peer evicts the oldest session, like any other peer -/
+example :
+    let a : Addr := .v4 127 0 0 1
+    (ServerNet.run (init 1 .any false) ([.connect 1 a] ++ churnSteps 0 a 1 ++ [.probe 1])).2 =
+      [.conn 1 "open", .conn 0 "open", .prob 1 "closed"] := by decide
+
+/-- a burst: three of four sessions end, the survivor is the oldest and stays when the slots
+    are taken again -/
+example :
+    let a : Addr := .v4 127 0 0 1
+    (ServerNet.run (init 4 .any false)
+      [.connect 1 a, .connect 2 a, .connect 3 a, .connect 4 a, .close 2, .close 3, .close 4,
+       .connect 5 a, .connect 6 a, .connect 7 a, .probe 1, .connect 8 a, .probe 1]).2 =
+      [.conn 1 "open", .conn 2 "open", .conn 3 "open", .conn 4 "open", .conn 5 "open", .conn 6 "open",
+       .conn 7 "open", .prob 1 "open", .conn 8 "open", .prob 1 "closed"] := by decide
 
 end Rodbus.C15Net
